@@ -10,7 +10,7 @@ from hypothesis import strategies as st
 from parso import cache as pcache
 from parso.file_io import FileIO
 
-from ..common import aborted, parent_link_error, scratch_dir, crash_signature, digest, first_tree_diff, grammar, short
+from ..common import tree_sig, aborted, parent_link_error, scratch_dir, crash_signature, digest, first_tree_diff, grammar, short
 from ..engine import Outcome, Prop
 
 FILES = ['a.py', 'b.py', 'sub/a.py', 'l.py']     # l.py is a symbolic link to a.py
@@ -37,6 +37,7 @@ _op = st.one_of(
     st.tuples(st.just('parse_inflight'), _F, _V, _D, st.sampled_from(MODES),
               st.integers(0, len(CONTENTS) - 1)),
     st.tuples(st.just('touch'), _F),
+    st.tuples(st.just('parse_inflight2'), _F, _V, _D, st.sampled_from(MODES), st.integers(0, len(CONTENTS) - 1), st.sampled_from(MODES)),
     st.tuples(st.just('parse_aborted'), _F, _V, _D, st.sampled_from(MODES), st.integers(1, 400)),
     st.tuples(st.just('copy'), _F, _F),
     st.tuples(st.just('write_all'), st.integers(0, len(CONTENTS) - 1)),
@@ -104,14 +105,17 @@ class World:
 class InflightIO(FileIO):
     """The file is overwritten right after parso has read it (an editor saving during the parse)."""
 
-    def __init__(self, path, world, new_content):
+    def __init__(self, path, world, new_content, after_write=None):
         super().__init__(path)
         self._world = world
         self._new = new_content
+        self._after_write = after_write
 
     def read(self):
         data = super().read()
         self._world.write(str(self.path), self._new)
+        if self._after_write is not None:
+            self._after_write()
         return data
 
 
@@ -202,7 +206,7 @@ def run_history(ops, allow_inflight=True):
                 w.restamp()
                 if kw['cache'] or kw['diff_cache']:
                     cached.add(f)
-            elif kind in ('parse', 'parse_inflight'):
+            elif kind in ('parse', 'parse_inflight', 'parse_inflight2'):
                 f = w.files[op[1]]
                 v = VERS[op[2]]
                 d = w.dirs[op[3]]
@@ -211,7 +215,43 @@ def run_history(ops, allow_inflight=True):
                 kw = dict(cache=mode.startswith('cache'), diff_cache='diff' in mode, cache_path=d)
                 content_at_read = w.model[f]
                 try:
-                    if kind == 'parse_inflight' and allow_inflight:
+                    if kind == 'parse_inflight2' and allow_inflight:
+                        # a SECOND reader in another thread, started strictly after the file was rewritten while the first parse is
+                        # still in flight: it must get the new content (it may not be handed the tree of the parse in progress)
+                        import threading
+                        info['inflight'] = True
+                        second = {}
+                        kw2 = dict(cache=op[6].startswith('cache'), diff_cache='diff' in op[6], cache_path=d)
+
+                        def reader():
+                            try:
+                                t_ = g.parse(path=f, **kw2)
+                                # judged as returned: with diff_cache the first parse may afterwards update this very object in place
+                                second['tree'] = (tree_sig(t_), t_.get_code())
+                            except Exception as e:      # noqa
+                                second['exc'] = e
+
+                        def after_write():
+                            second['expected'] = w.model[f]
+                            t = threading.Thread(target=reader, daemon=True)
+                            second['thread'] = t
+                            t.start()
+                            t.join(4.0)          # returns at once unless the reader waits for the parse in flight
+
+                        m = g.parse(file_io=InflightIO(f, w, CONTENTS[op[5]], after_write), **kw)
+                        if 'thread' in second:
+                            second['thread'].join(60)
+                        else:
+                            second['tree'] = None          # the first parse was served from memory and never read the file
+                        if 'exc' in second:
+                            sig, det = crash_signature(second['exc'])
+                            return (sig, 'step %d %r (second reader): %s' % (step, op, det)), info
+                        if 'tree' not in second:
+                            return ('second-reader-never-returns', 'step %d %r' % (step, op)), info
+                        if second['tree'] is not None and second['tree'][0] != tree_sig(g.parse(second['expected'])):
+                            return ('stale-or-foreign-tree+second-reader-during-parse', 'step %d %r: a reader that started after the file was '
+                                    'rewritten got code %s, file content %s' % (step, op, short(second['tree'][1], 60), short(second['expected'], 60))), info
+                    elif kind == 'parse_inflight' and allow_inflight:
                         info['inflight'] = True
                         m = g.parse(file_io=InflightIO(f, w, CONTENTS[op[5]]), **kw)
                     else:
@@ -238,7 +278,7 @@ def run_history(ops, allow_inflight=True):
                     if first_tree_diff(m, cur) is None:
                         continue
                     which = 'stale-or-foreign-tree'
-                    if kind == 'parse_inflight':
+                    if kind in ('parse_inflight', 'parse_inflight2'):
                         which += '+write-during-parse'
                     elif info['inflight']:
                         which += '+after-write-during-parse'
@@ -281,7 +321,7 @@ class C16(Prop):
             'directories in a private temp root; operations {write file from a pool of 14 contents (mtime advances on an owned logical '
             'clock), copy the content of one file to another, write the same content to all files, touch, parse by path with cache / cache+diff_cache / no cache / diff_cache only, parse with a write in flight (FileIO '
             'subclass that overwrites the file right after parso read it), drop the in-memory cache (what a restart does), delete a cache '
-            'directory, force memory eviction, a parse that is aborted by an exception at the n-th line executed in cache.py/grammar.py/diff.py/file_io.py (the caller goes on)}; one third of the histories are *pair histories* (two paths through the same grammar and cache directory: both parsed, one changed - often from identical contents -, both parsed again, random operations in between). All timestamps are kept on one logical clock: pickles written during a call are '
+            'directory, force memory eviction, a parse with a write in flight *and* a second reader thread that starts right after that write, a parse that is aborted by an exception at the n-th line executed in cache.py/grammar.py/diff.py/file_io.py (the caller goes on)}; one third of the histories are *pair histories* (two paths through the same grammar and cache directory: both parsed, one changed - often from identical contents -, both parsed again, random operations in between). All timestamps are kept on one logical clock: pickles written during a call are '
             're-stamped with the next tick. Oracle (dict-of-files model): every parse returns a tree equal (own comparator) to a fresh '
             'parse of the content the model says was on disk at read time. Non-trivial: history with a write after a cached parse of the '
             'same file followed by another parse of it. Distinct by operation sequence.')
